@@ -15,6 +15,9 @@ THEOREMS = [
     "Remoc.Table.terminate_iff",
     "Remoc.Table.Sys.no_frame_for_absent_port",
     "Remoc.Table.Sys.freed_port_unreferenced",
+    "Remoc.Table.Sys.clean_termination",
+    "Remoc.Table.Sys.clean_termination_reclaims",
+    "Remoc.Table.Sys.internal_steps_terminate",
 ]
 RULE = ("settle-separated scripts on two real endpoints: concurrent connects (wait and no-wait), accepts, inspected requests "
         "accepted/rejected/dropped, port batches over ports, cancelled calls, drops of senders/receivers/clients/listeners in "
